@@ -138,3 +138,14 @@ pub use wfactors::*;
 ///
 /// Version number
 pub static VERSION: &str = env!("CARGO_PKG_VERSION");
+
+/// Pass-through access to private helpers for the verification harnesses in /verif (Kani kernels).
+/// Compiled only with `--cfg energiacte_cteepbd_verif` (or under Kani); adds no behaviour.
+#[cfg(any(energiacte_cteepbd_verif, kani))]
+pub mod verif_hooks {
+    pub use crate::vecops::{vecsum, vecvecdif, vecvecmin, vecvecmul, vecvecsum};
+    /// `balance::compute_f_match`
+    pub fn compute_f_match(produced: &[f32], used: &[f32], load_matching: bool) -> Vec<f32> {
+        crate::balance::verif_compute_f_match(produced, used, load_matching)
+    }
+}
